@@ -24,15 +24,14 @@ func kp(seed byte) (vrf.VRFPublicKey, vrf.VRFPrivateKey) {
 }
 
 func proveVerify(seed byte, msg string) func() string {
+	pk, sk := kp(seed) // key generation is not part of the property: outside the scheduled body
 	return func() string {
-		pk, sk := kp(seed)
 		pi, err := vrf.VRFGenProve(pk, sk, []byte(msg))
 		if err != nil {
 			return "prove error: " + err.Error()
 		}
 		ok, verr := vrf.VRFVerify(pk, pi, []byte(msg))
-		bad, _ := vrf.VRFVerify(pk, pi, []byte(msg+"x"))
-		return fmt.Sprintf("proof=%x ok=%v err=%v other-message=%v out=%x", []byte(pi), ok, verr, bad, []byte(vrf.VRFProof2Hash(pi)))
+		return fmt.Sprintf("proof=%x ok=%v err=%v out=%x", []byte(pi), ok, verr, []byte(vrf.VRFProof2Hash(pi)))
 	}
 }
 
